@@ -286,7 +286,7 @@ CrashRestart ==
     /\ crashes < MaxCrashes /\ crashes' = crashes + 1
     /\ cache' = api /\ evq' = <<>> /\ storeq' = <<>>
     /\ counter' = [c \in JCs |-> TrueActive(api, c)]
-    /\ wq' = [c \in JCs |-> \E j \in Jobs : api[j].ex /\ api[j].jc = c]
+    /\ wq' = [c \in JCs |-> TRUE]       \* every JobConfig is reconciled once when it is added to the cache (and for each of its Jobs' add events)
     /\ timer' = [c \in JCs |-> FALSE] /\ retry' = [c \in JCs |-> FALSE]
     /\ iq' = {j \in Jobs : api[j].ex /\ api[j].jc = 0} /\ itimer' = {} /\ iretry' = {}
     /\ sync' = Idle /\ isync' = IIdle
